@@ -664,6 +664,138 @@ def driver_and_cases(m, rng, mode="both", given=None):
     return "\n".join(src), cases
 
 
+ALIGNED_PRELUDE = r"""
+// ---- views with static alignment: buffers live at an address that is K modulo 16 ----
+struct ABuf { unsigned char *base; unsigned char *p; size_t n; };
+static ABuf aunhex(const char *s, size_t shift) {
+  ABuf b; b.n = strlen(s) / 2;
+  size_t total = (b.n + kSlack + shift + 31) / 16 * 16;
+  b.base = static_cast<unsigned char *>(aligned_alloc(16, total));
+  b.p = b.base + shift;
+  for (size_t i = 0; i < b.n; ++i) { unsigned v; sscanf(s + 2 * i, "%2x", &v); b.p[i] = static_cast<unsigned char>(v); }
+  for (size_t i = 0; i < kSlack; ++i) b.p[b.n + i] = static_cast<unsigned char>(0xC3 ^ i);
+  return b;
+}
+template <class G> static void aobs_read(int a, size_t shift, G get, const char *const *bufs, int nb) {
+  for (int b = 0; b < nb; ++b) {
+    ABuf ab = aunhex(bufs[b], shift);
+    verif_chk = 0;
+    auto v = get(ab.p, ab.n);
+    typedef decltype(v.UncheckedRead()) VT;
+    bool cpl = v.IsComplete();
+    bool ok = v.Ok();
+    printf("R a=%d b=%d ok=%d cpl=%d sz=%d sg=%d v=", a, b, ok, cpl, static_cast<int>(sizeof(VT) * 8), Sg<VT>::v);
+    if (cpl && verif_chk == 0) pv(v.UncheckedRead()); else printf("-");
+    printf(" r=");
+    if (ok && verif_chk == 0) pv(v.Read()); else printf("-");
+    printf(" chk=%d oob=%d\n", verif_chk, oob(ab.p, ab.n));
+    free(ab.base);
+  }
+}
+template <class G, class T> static void aobs_write(int a, int t, size_t shift, G get, const char *const *bufs, int nb,
+                                                   const T *vals, int nv) {
+  for (int b = 0; b < nb; ++b)
+    for (int i = 0; i < nv; ++i) {
+      ABuf ab = aunhex(bufs[b], shift);
+      verif_chk = 0;
+      auto v = get(ab.p, ab.n);
+      bool cw = v.CouldWriteValue(vals[i]);
+      bool tw = v.TryToWrite(vals[i]);
+      int chk = verif_chk;
+      printf("W a=%d b=%d t=%d i=%d cw=%d tw=%d rd=", a, b, t, i, cw, tw);
+      if (tw && chk == 0 && v.Ok()) pv(v.Read()); else if (tw && chk == 0) { printf("!"); pv(v.UncheckedRead()); } else printf("-");
+      printf(" buf="); hexout(ab.p, ab.n); printf(" chk=%d oob=%d\n", chk, oob(ab.p, ab.n));
+      free(ab.base);
+    }
+}
+"""
+
+ALIGNED_ID = 100000     # observation id of variant vi (1-based) of accessor a: a + ALIGNED_ID * vi
+
+
+def aligned_variants(acc, thorough=False, light=False):
+    """static (alignment A, address k mod A) pairs for the struct view through which the accessor is observed again.
+    Containers of 2/4/8 bytes always get a view that puts them at an address that is a multiple of their size under
+    alignment 8 (this is what reaches the MemoryAccessor<CharT, N, 0, 8N> specialisations), plus rotating other pairs."""
+    vs = []
+    if light and not thorough:      # write drivers of the quick tier: one variant per 2/4/8-byte container, few others
+        if acc.c in (2, 4, 8):
+            vs.append((8, (-acc.boff) % 8) if acc.id % 2 else (acc.c, (-acc.boff) % acc.c))
+        elif acc.id % 6 == 1:
+            A = (2, 4, 8)[(acc.id // 6) % 3]
+            vs.append((A, (acc.id * 5 + 1) % A))
+        return vs
+    if acc.c in (2, 4, 8):
+        vs.append((8, (-acc.boff) % 8))
+        if acc.id % 2 == 0 or thorough:
+            vs.append((acc.c, (-acc.boff) % acc.c))
+    if acc.id % 3 == 1 or thorough:
+        A = (2, 4, 8)[(acc.id // 3) % 3]
+        vs.append((A, (acc.id * 5 + 1) % A))
+    if thorough:
+        vs.append((1, 0))
+    return list(dict.fromkeys(vs))
+
+
+def aligned_driver(m, cases, thorough=False, light=False):
+    """A second driver over the same buffers and values: every accessor observed through GenericTopView over
+    ContiguousBuffer<unsigned char, A, k> (MakeAlignedTopView<unsigned char, A> when k = 0).  Records the variants in
+    cases[acc.id]["aligned"]."""
+    src = [DRIVER_PRELUDE % dict(name=m.name), ALIGNED_PRELUDE]
+    body = []
+    for acc in m.accessors:
+        cs = cases[acc.id]
+        rb, wb, wv = cs["read_bufs"], cs["write_bufs"], cs["writes"]
+        cs["aligned"] = aligned_variants(acc, thorough, light)
+        if not cs["aligned"]:
+            continue
+        a = acc.id
+        src.append("static const char *const rb%d[] = {%s};" % (a, ", ".join('"%s"' % hexs(r) for r in rb) or '""'))
+        src.append("static const char *const wb%d[] = {%s};" % (a, ", ".join('"%s"' % hexs(r) for r in wb) or '""'))
+        arrs = []
+        for ti, (t, vals) in enumerate(wv):
+            t = tuple(t)
+            if not wb or not vals:
+                continue
+            if acc.kind == "enum":
+                tn = "%s::%s" % (m.name, acc.enum)
+                arr = ", ".join("static_cast<%s>(%s)" % (tn, c_literal(v, t)) for v in vals)
+            elif acc.kind == "float":
+                tn, utn = ("float", "uint32_t") if acc.w == 32 else ("double", "uint64_t")
+                arr = ", ".join("from_bits<%s, %s>(%s)" % (tn, utn, c_literal(v, t)) for v in vals)
+            elif acc.kind == "flag":
+                tn, arr = "bool", ", ".join("true" if v else "false" for v in vals)
+            else:
+                tn = cty_name(t)
+                arr = ", ".join("static_cast<%s>(%s)" % (tn, c_literal(v, t)) for v in vals)
+            src.append("static const %s wv%d_%d[] = {%s};" % (tn, a, ti, arr))
+            arrs.append((ti, len(vals)))
+        for vi, (A, k) in enumerate(cs["aligned"], 1):
+            if k == 0:
+                mk = "%s::MakeAlignedTopView<unsigned char, %d>(p, n)" % (m.name, A)
+            else:
+                mk = "%s::GenericTopView< ::emboss::support::ContiguousBuffer<unsigned char, %d, %d>>(p, n)" % (m.name, A, k)
+            body.append("  { auto get = [](unsigned char *p, size_t n) { return %s.%s; };" % (mk, acc.cpp))
+            aid = a + ALIGNED_ID * vi
+            if rb:
+                body.append("    aobs_read(%d, %d, get, rb%d, %d);" % (aid, k, a, len(rb)))
+            for ti, nv in arrs:
+                body.append("    aobs_write(%d, %d, %d, get, wb%d, %d, wv%d_%d, %d);" % (aid, ti, k, a, len(wb), a, ti, nv))
+            body.append("  }")
+    funcs, chunk, k = [], [], 0
+    for line in body:
+        chunk.append(line)
+        if line == "  }" and len(chunk) > 60:
+            funcs.append("static void part%d() {\n%s\n}" % (k, "\n".join(chunk)))
+            chunk, k = [], k + 1
+    if chunk:
+        funcs.append("static void part%d() {\n%s\n}" % (k, "\n".join(chunk)))
+        k += 1
+    src.extend(funcs)
+    src.append("int main() {\n%s\n  printf(\"END\\n\");\n  return 0;\n}\n" % "\n".join("  part%d();" % i for i in range(k)))
+    return "\n".join(src)
+
+
 # ----------------------------------------------------------------------------------------------
 # Coq terms
 # ----------------------------------------------------------------------------------------------
